@@ -1,6 +1,7 @@
 //! Runs histories on the real collections, emits transitions for the Lean driver, evaluates oracles.
 use crate::colls::*;
 use crate::keys::*;
+use crate::keys::InjectedPanic;
 use crate::oracle::RefMap;
 use std::collections::BTreeMap;
 use std::fs::File;
@@ -71,6 +72,8 @@ pub struct Runner<'a> {
     pub is_list: bool,
     pub suite: String,
     pub last_count: usize,
+    /// property every failure is additionally attributed to (C18 while continuing after an injected panic)
+    pub also: Option<&'static str>,
 }
 
 pub fn silent_panics() {
@@ -84,13 +87,15 @@ impl<'a> Runner<'a> {
         Runner {
             out, coll: coll.to_string(), variant, cap, real: make(coll, cap, variant), refm: RefMap::new(cap),
             twin: None, ops: vec![], hid, emit: true, oracles: true, handles: BTreeMap::new(), dead: false,
-            expiring: coll == "key" || coll == "klist", is_list: coll.ends_with("list"), suite: suite.to_string(), last_count: 0,
+            expiring: coll == "key" || coll == "klist", is_list: coll.ends_with("list"), suite: suite.to_string(), last_count: 0, also: None,
         }
     }
 
     pub fn fail(&mut self, props: &[&str], what: &str, expected: &str, observed: &str) {
         if !self.emit { return; }
         self.out.oracle_fails += 1;
+        let mut props: Vec<&str> = props.to_vec();
+        if let Some(a) = self.also { if !props.contains(&a) { props.push(a); } }
         let ops: Vec<String> = self.ops.iter().map(|o| jstr(&o.text())).collect();
         writeln!(
             self.out.oracle,
@@ -234,6 +239,71 @@ impl<'a> Runner<'a> {
         }
     }
 
+    /// Run `op` with a panic injected into its `k`-th user callback (C18). Returns false when the
+    /// history cannot be continued (callback not reached, a different panic, torn collection).
+    pub fn step_injected(&mut self, op: &Op, k: usize, ek: Option<i64>, modelled: bool) -> bool {
+        let coll = self.coll.clone();
+        let pre_state = self.real.state();
+        let pre_entries = self.real.entries().unwrap_or_default();
+        // clean twin to learn the contents after the completed operation
+        let post_entries = {
+            let mut c = make(&coll, self.cap, self.variant);
+            cb_reset(None, false);
+            for o in self.ops.iter().filter(|o| o.name != "@inject") { c.apply(o); }
+            c.apply(op);
+            cb_take();
+            c.entries().unwrap_or_default()
+        };
+        self.ops.push(Op::new("@inject", &[k as i64]));
+        self.ops.push(op.clone());
+        cb_reset(Some(k), true);
+        let real = &mut self.real;
+        let res = catch_unwind(AssertUnwindSafe(|| real.apply(op)));
+        cb_take();
+        let panicked = match &res { Err(e) => e.is::<InjectedPanic>(), Ok(_) => false };
+        self.out.eval("C18");
+        self.also = Some("C18");
+        if !panicked {
+            match res {
+                // not a property failure: the injection point does not exist in this (shrunk / replayed) history
+                Ok(_) => { self.also = None; self.fail(&["REPLAY"], &format!("callback #{} of `{}` was not reached", k, op.text()), "panic", "completed") }
+                Err(e) => { let msg = e.downcast_ref::<String>().cloned().or(e.downcast_ref::<&str>().map(|s| s.to_string())).unwrap_or("?".into()); self.fail(&["C18", "C10"], &format!("a different panic while unwinding from callback #{} of `{}`", k, op.text()), "injected panic only", &msg) }
+            }
+            self.dead = true;
+            return false;
+        }
+        let post_state = self.real.state();
+        if modelled && self.emit {
+            let pre = pre_state.unwrap_or_else(|e| format!("ABSFAIL {}", e));
+            let post = match &post_state { Ok(s) => s.clone(), Err(e) => format!("ABSFAIL {}", e) };
+            writeln!(self.out.req, "{} {} | {} | inj {}", coll, op.text(), pre, k).unwrap();
+            match self.real.abs_note() {
+                Some(n) => writeln!(self.out.exp, "out=panic | st={} | tr=* | abs={}", post, n).unwrap(),
+                None => writeln!(self.out.exp, "out=panic | st={} | tr=*", post).unwrap(),
+            }
+            writeln!(self.out.ctx, "H{} {}", self.hid, self.ops.len() - 1).unwrap();
+            self.out.lines += 1;
+        }
+        // oracle: structurally valid and contents = before or after
+        if let Some(Err(e)) = self.real.structure() { self.fail(&["C18", "C02"], &format!("structure after a panic in callback #{} of `{}`", k, op.text()), "valid tree", &e); self.dead = true; return false; }
+        if let Err(e) = &post_state { self.fail(&["C18", "C11"], &format!("arena after a panic in callback #{} of `{}`", k, op.text()), "consistent links and slots", e); self.dead = true; return false; }
+        if let Some(n) = self.real.abs_note() { self.fail(&["C18", "C11"], &format!("slots after a panic in callback #{} of `{}`", k, op.text()), "sentinel, tree and free list partition the arena", &n); }
+        let now = self.real.entries().unwrap_or_default();
+        let proj = |es: &[(u32, i64, i64, i64)], t: Option<i64>| -> Vec<(i64, i64, i64)> { es.iter().filter(|e| t.map_or(true, |t| e.2 > t)).map(|e| (e.1, e.2, e.3)).collect() };
+        let t = if self.expiring { match op.name.as_str() { "insert" => Some(op.a[3]), "clear" | "isempty" => None, _ => Some(op.a[0]) } } else { None };
+        let is_pre = proj(&now, t) == proj(&pre_entries, t);
+        let is_post = proj(&now, t) == proj(&post_entries, t);
+        if !is_pre && !is_post {
+            self.fail(&["C18"], &format!("contents after a panic in callback #{} of `{}` are neither those before nor those after the operation", k, op.text()),
+                &format!("{:?} or {:?}", proj(&pre_entries, t), proj(&post_entries, t)), &format!("{:?}", proj(&now, t)));
+            self.dead = true;
+            return false;
+        }
+        if is_post && !is_pre { self.ref_update(op, ek); }
+        if let Some(t) = t { self.refm.last_t = self.refm.last_t.max(t); }
+        true
+    }
+
     /// apply without any bookkeeping (bulk loading of very large trees)
     pub fn step_light(&mut self, op: &Op) {
         if self.oracles { self.step(op, None); return; }
@@ -289,7 +359,8 @@ impl<'a> Runner<'a> {
             self.out.eval("C02");
             if let Err(e) = st {
                 self.fail(&["C02"], "red-black / search-tree / link invariant broken", "valid red-black search tree", &e);
-                broken = true;
+                // a stale parent field alone does not stop the history (neighbour steps may now go wrong: C09)
+                if !e.contains("PARENT-LINK") { broken = true; }
             }
         }
         let mut post_entries = vec![];
@@ -298,6 +369,9 @@ impl<'a> Runner<'a> {
             match ab {
                 Err(e) => { self.fail(&["C11", "C02"], "arena links broken", "mutually consistent parent/child links, sentinel linked nowhere", &e); self.dead = true; return; }
                 Ok(ab) => {
+                    if let Some(e) = &ab.links_err {
+                        self.fail(&["C02"], "parent / child links inconsistent", "every parent field equals the slot the node is linked from", e);
+                    }
                     if let Some(e) = &ab.slots_err {
                         self.fail(&["C11"], "slot partition broken", "sentinel, tree and free list partition the arena", e);
                         // a lost slot is harmless for what follows; a slot that is free and in use is not
@@ -360,12 +434,22 @@ impl<'a> Runner<'a> {
                     if e != out { self.fail(if self.is_list { &["C13"] } else { &["C17", "C08"] }, &format!("read through handle {} held for key {}", a[0], k), &e, out); }
                 }
             }
-            "setidx" => {
-                if let Some(k) = expect_key { if let Some(x) = self.refm.m.get_mut(&k) { x.1 = a[1]; } }
-            }
-            "delidx" => {
-                if let Some(k) = expect_key { self.refm.m.remove(&k); }
-                self.handles.clear();
+            "setidx" | "delidx" => {
+                // what the handle really designated before the operation
+                let actual = pre_entries.iter().find(|e| e.0 as i64 == a[0]).map(|e| e.1);
+                if let (Some(k), Some(act)) = (expect_key, actual) {
+                    if k != act && !self.is_list {
+                        self.out.eval("C17");
+                        self.fail(&["C17"], &format!("handle {} held for key {} designates another entry when used by `{}`", a[0], k, op.text()), &format!("key{}", k), &format!("key{}", act));
+                    }
+                }
+                let target = actual.or(expect_key);
+                if op.name == "setidx" {
+                    if let Some(k) = target { if let Some(x) = self.refm.m.get_mut(&k) { x.1 = a[1]; } }
+                } else {
+                    if let Some(k) = target { self.refm.m.remove(&k); }
+                    self.handles.clear();
+                }
             }
             "after" | "before" => {
                 self.out.eval(np[0]);
